@@ -702,6 +702,7 @@ func fnv(b []byte) uint64 {
 }
 
 func (e *engine) Run(src *vs.Source, tier string, idx int64) *simkit.RunResult {
+	vs.PoolReset() // a run is a function of its seed, not of what earlier runs left in a sync.Pool
 	res := &simkit.RunResult{Stats: map[string]int64{}, Max: map[string]int64{}}
 	m := src.Stream("main")
 	sc := &scen{m: m}
